@@ -296,6 +296,13 @@ def _tiling(ctx, p, evs, sel, claim_call, h):
     if not tops:
         return False
     outer = tops[0]
+    from ..terms import walk as _walk
+    if outer["iter"] is not None and any(isinstance(x, tuple) and x and x[0] == "unknown"
+                                         for x in _walk(outer["iter"])):
+        # e.g. a table of candidates computed at import time: what it holds is
+        # not modelled, so there is no verdict (not a violation)
+        raise AnalysisError("R04.tiling: the allocator iterates a value the analysis does "
+                            "not model (%s)" % show(outer["iter"])[:60])
     b = range_bounds(outer["iter"]) if outer["iter"] else None
     ok = b is not None and is_const(b[0]) and is_const(b[1]) and \
         list(range(b[0][1], b[1][1])) == [1, 2, 3]
